@@ -5,6 +5,7 @@ import (
 	"go/token"
 	"go/types"
 	"math/big"
+	"strings"
 
 	"golang.org/x/tools/go/ssa"
 
@@ -14,6 +15,10 @@ import (
 )
 
 // R5: GSS-API / SPNEGO framing (X.690 definite-length octets).
+
+// c08NotFollowed prefixes a reason that describes a shape the rule does not
+// read (→ NOT DECIDED) as opposed to something it observed to be wrong.
+const c08NotFollowed = "\x00"
 
 func (c *c08) spnego() {
 	c.encodeLength()
@@ -159,7 +164,9 @@ func (c *c08) encodeLength() {
 		c.R.Undecided(rule, name, "-", "anchor function not found")
 		return
 	}
-	c.guard(rule, name, c.pos(fn.Pos()), func() { c.encodeLength1(fn, name) })
+	c.entity(map[string]int{rule: 3}, func() {
+		c.guard(rule, name, c.pos(fn.Pos()), func() { c.encodeLength1(fn, name) })
+	})
 }
 
 func (c *c08) encodeLength1(fn *ssa.Function, name string) {
@@ -181,7 +188,7 @@ func (c *c08) encodeLength1(fn *ssa.Function, name string) {
 		}
 		if m, isMk := ret.Results[0].(*ssa.MakeSlice); isMk {
 			if long != nil {
-				r.Undecided(rule, name+": long form", c.ipos(ret), "more than one return of a made buffer")
+				c.notDecided(rule, name+": long form", c.ipos(ret), "more than one return of a made buffer")
 				return
 			}
 			long, mk, nLen, nAt = ret, m, m.Len, m
@@ -190,7 +197,7 @@ func (c *c08) encodeLength1(fn *ssa.Function, name string) {
 		if sl, isSl := ret.Results[0].(*ssa.Slice); isSl && sl.Low != nil && sl.High == nil && sl.Max == nil {
 			if _, isK := c08ConstInt(sl.Low); !isK {
 				if long != nil {
-					r.Undecided(rule, name+": long form", c.ipos(ret), "more than one long-form return")
+					c.notDecided(rule, name+": long form", c.ipos(ret), "more than one long-form return")
 					return
 				}
 				long, beTail, nAt = ret, sl, sl
@@ -198,7 +205,7 @@ func (c *c08) encodeLength1(fn *ssa.Function, name string) {
 			}
 		}
 		if short != nil {
-			r.Undecided(rule, name+": short form", c.ipos(ret), "more than two returns")
+			c.notDecided(rule, name+": short form", c.ipos(ret), "more than two returns")
 			return
 		}
 		short = ret
@@ -208,28 +215,38 @@ func (c *c08) encodeLength1(fn *ssa.Function, name string) {
 		construct := name + ": short form"
 		switch {
 		case short == nil:
-			r.Fail(rule, construct, c.pos(fn.Pos()), "no return of a single length octet")
+			c.notDecided(rule, construct, c.pos(fn.Pos()), "no return that is neither a made buffer nor a computed tail was found: the short form has another shape")
 		default:
 			ps := st.Stream(short.Results[0])
 			ctx := fi.CtxBefore(short)
 			pf := ctx.Lin(param)
 			switch {
-			case len(ps) != 1 || ps[0].Kind != "byte" || c08Strip(ps[0].Val) != ssa.Value(param):
+			case len(ps) != 1 || (ps[0].Kind != "byte" && ps[0].Kind != "const" && ps[0].Kind != "zero" && ps[0].Kind != "int"):
+				c.notDecided(rule, construct, c.ipos(short), "the short form is "+codec.RenderPieces(ps)+", which is not read off as one octet")
+			case ps[0].Kind != "byte" || c08Strip(ps[0].Val) != ssa.Value(param):
 				r.Fail(rule, construct, c.ipos(short), "the short form is "+codec.RenderPieces(ps)+", not the single octet byte(length)")
 			case !ctx.Prove(lin.LE(pf, lin.K(127))):
-				r.Fail(rule, construct, c.ipos(short), "the single-octet form is returned for lengths that are not proved < 128 (bit 8 would read as the long-form marker)")
+				if esc := c.flowsOut(param, c08FlowOpts{validators: true, lengths: true, before: short}); esc != "" {
+					c.notDecided(rule, construct, c.ipos(short), "the single-octet form is returned for lengths not proved < 128 from the tests read, but "+esc+", which may establish the bound")
+				} else {
+					r.Fail(rule, construct, c.ipos(short), "the single-octet form is returned for lengths that are not proved < 128 (bit 8 would read as the long-form marker)")
+				}
 			default:
 				r.OK(rule, construct, c.ipos(short), "length < 128 ⇒ one octet byte(length)")
 			}
 		}
 	}
 	if long == nil {
-		r.Fail(rule, name+": octet count", c.pos(fn.Pos()), "no long-form return (a made buffer) found")
+		c.notDecided(rule, name+": octet count", c.pos(fn.Pos()), "no long-form return (a made buffer or a computed tail of one) found: the long form has another shape")
 		return
 	}
 	{
 		ctx := fi.CtxBefore(long)
 		if !ctx.Prove(lin.GE(ctx.Lin(param), lin.K(128))) {
+			if esc := c.flowsOut(param, c08FlowOpts{validators: true, lengths: true, before: long}); esc != "" {
+				c.notDecided(rule, name+": octet count", c.ipos(long), "the long form is returned for lengths not proved >= 128 from the tests read, but "+esc+", which may establish the bound")
+				return
+			}
 			r.Fail(rule, name+": octet count", c.ipos(long), "the long form is returned for lengths not proved >= 128")
 			return
 		}
@@ -240,7 +257,7 @@ func (c *c08) encodeLength1(fn *ssa.Function, name string) {
 		if sub, isB := c08Strip(beTail.Low).(*ssa.BinOp); isB && sub.Op == token.SUB && z.Of(sub.X).Equal(w) {
 			nLen = sub.Y
 		} else {
-			r.Undecided(rule, name+": octet count", c.ipos(beTail), "the long form is a tail of a buffer whose start is not width - N: "+z.String(z.Of(beTail.Low)))
+			c.notDecided(rule, name+": octet count", c.ipos(beTail), "the long form is a tail of a buffer whose start is not width - N: "+z.String(z.Of(beTail.Low)))
 			return
 		}
 	}
@@ -251,6 +268,10 @@ func (c *c08) encodeLength1(fn *ssa.Function, name string) {
 		np, isPhi := c08Strip(nLen).(*ssa.Phi)
 		if how, bad := c.octetsClosedForm(nLen, param); how != "" || bad != "" {
 			// N computed from the bit length: (bits.Len(uint(length)) + 7) / 8
+			if strings.HasPrefix(bad, c08NotFollowed) {
+				c.notDecided(rule, construct, c.ipos(nAt), strings.TrimPrefix(bad, c08NotFollowed))
+				return
+			}
 			if bad != "" {
 				r.Fail(rule, construct, c.ipos(nAt), bad+" (the long form must use ceil(bitlen(length)/8) octets)")
 				return
@@ -261,13 +282,21 @@ func (c *c08) encodeLength1(fn *ssa.Function, name string) {
 			// N chosen by a ladder of range tests: every constant k must be chosen
 			// exactly for 256^(k-1) <= length < 256^k
 			if bad := c.octetsLadder(fi, np, param); bad != "" {
+				if strings.HasPrefix(bad, c08NotFollowed) {
+					c.notDecided(rule, construct, c.ipos(np), strings.TrimPrefix(bad, c08NotFollowed))
+					return
+				}
+				if esc := c.flowsOut(param, c08FlowOpts{validators: true, lengths: true}); esc != "" {
+					c.notDecided(rule, construct, c.ipos(np), bad+" from the tests read, but "+esc+", which may establish the range")
+					return
+				}
 				r.Fail(rule, construct, c.ipos(np), bad+" (the long form must use ceil(bitlen(length)/8) octets)")
 				return
 			}
 			r.OK(rule, construct, c.ipos(np), "N = k is chosen only where 256^(k-1) <= length <= 256^k - 1 (E1, on every edge into the join)")
 			isPhi = false
 		} else if !isPhi {
-			r.Undecided(rule, construct, c.ipos(nAt), "the buffer length is not a loop counter: "+z.String(N))
+			c.notDecided(rule, construct, c.ipos(nAt), "the buffer length is not a loop counter: "+z.String(N))
 			return
 		}
 		if isPhi {
@@ -288,15 +317,28 @@ func (c *c08) encodeLength1(fn *ssa.Function, name string) {
 			}
 			okc := false
 			why := ""
+			nd := "" // the loop has a shape that is not read (as opposed to one seen to count wrongly)
+			var wrongShift *c08LoopPhi
+			for _, lp := range lps {
+				if lp.shift != 0 && lp.shift != 8 && c08Strip(lp.init) == ssa.Value(param) {
+					wrongShift = lp
+				}
+			}
 			switch {
-			case cnt == nil || cnt.stride == nil || cnt.stride.Cmp(big.NewInt(1)) != 0:
+			case cnt == nil || cnt.stride == nil:
+				nd = "the octet count is a loop-carried value that does not advance by a constant per iteration"
+			case cnt.stride.Cmp(big.NewInt(1)) != 0:
 				why = "the octet counter does not advance by 1 per iteration"
+			case !func() bool { _, isK := c08ConstInt(cnt.init); return isK }():
+				nd = "the octet counter starts at a value that is not a constant"
 			case !func() bool { k, isK := c08ConstInt(cnt.init); return isK && k.Sign() == 0 }():
 				why = "the octet counter does not start at 0"
+			case tmp == nil && wrongShift != nil:
+				why = fmt.Sprintf("the length is shifted right by %d (not 8) per counted octet", wrongShift.shift)
 			case tmp == nil:
-				why = "no loop variable starts at `length` and is shifted right by 8 per iteration"
+				nd = "no loop variable that starts at `length` and is shifted right per iteration was found"
 			case body == nil:
-				why = "loop body not found"
+				nd = "loop body not found"
 			default:
 				// continue iff tmp > 0  (tmp - 1 >= 0), or tmp != 0 for the non-negative value
 				f, ok := c08ContForm(z, hb, body)
@@ -320,7 +362,21 @@ func (c *c08) encodeLength1(fn *ssa.Function, name string) {
 				}
 				if !okc {
 					why = "the counting loop does not run exactly while the shifted length is > 0"
+					// observed only if the continue condition is a test of the shifted length alone
+					if !ok {
+						nd, why = "the continue condition of the counting loop is not an integer comparison that is read off", ""
+					} else {
+						for _, t := range f.Terms() {
+							if v, _ := z.TermValue(t); v != ssa.Value(tmp.phi) {
+								nd, why = "the continue condition of the counting loop involves "+z.Name(t)+", not only the shifted length", ""
+							}
+						}
+					}
 				}
+			}
+			if !okc && nd != "" {
+				c.notDecided(rule, construct, c.ipos(np), nd)
+				return
 			}
 			if !okc {
 				r.Fail(rule, construct, c.ipos(np), why+" (the long form must use ceil(bitlen(length)/8) octets)")
@@ -345,13 +401,13 @@ func (c *c08) encodeLength1(fn *ssa.Function, name string) {
 			whole = beTail.X
 		}
 		if whole == nil {
-			r.Undecided(rule, construct, c.ipos(beTail), "the buffer the long form is cut from is never written as a whole")
+			c.notDecided(rule, construct, c.ipos(beTail), "the buffer the long form is cut from is never written as a whole")
 			return
 		}
 		ps := st.Stream(whole)
 		switch {
 		case len(ps) != 1 || ps[0].Kind != "int":
-			r.Undecided(rule, construct, c.ipos(beTail), "the buffer the long form is cut from is "+codec.RenderPieces(ps)+", not one integer")
+			c.notDecided(rule, construct, c.ipos(beTail), "the buffer the long form is cut from is "+codec.RenderPieces(ps)+", not one integer")
 		case c08Strip(ps[0].Val) != ssa.Value(param) || !c08Wide(ps[0].Val):
 			r.Fail(rule, construct, c.ipos(ps[0].At), "the integer written into the buffer is not the (untruncated) length")
 		case ps[0].Order != "BE":
@@ -385,19 +441,19 @@ func (c *c08) encodeLength1(fn *ssa.Function, name string) {
 							continue
 						}
 					}
-					r.Undecided(rule, construct, c.ipos(ref), fmt.Sprintf("the length buffer is used by %T", ref))
+					c.notDecided(rule, construct, c.ipos(ref), fmt.Sprintf("the length buffer is used by %T", ref))
 					return
 				}
 			}
 		}
 		if len(stores) != 1 {
-			r.Undecided(rule, construct, c.ipos(mk), fmt.Sprintf("%d element stores into the length buffer (expected one, in a loop)", len(stores)))
+			c.notDecided(rule, construct, c.ipos(mk), fmt.Sprintf("%d element stores into the length buffer (expected one, in a loop)", len(stores)))
 			return
 		}
 		stI, ia := stores[0], ias[0]
 		hb := c08HeaderOf(stI.Block())
 		if hb == nil {
-			r.Undecided(rule, construct, c.ipos(stI), "the element store is not inside a loop")
+			c.notDecided(rule, construct, c.ipos(stI), "the element store is not inside a loop")
 			return
 		}
 		lps := c08LoopPhis(z, hb)
@@ -419,7 +475,7 @@ func (c *c08) encodeLength1(fn *ssa.Function, name string) {
 		}
 		idx, ok := subst(z.Of(ia.Index))
 		if !ok {
-			r.Undecided(rule, construct, c.ipos(ia), "the index is not an affine function of the iteration count")
+			c.notDecided(rule, construct, c.ipos(ia), "the index is not an affine function of the iteration count")
 			return
 		}
 		// value: byte(X [& 0xFF]) with X = φ (>> 8 per iteration from length) or length >> s(k)
@@ -444,7 +500,7 @@ func (c *c08) encodeLength1(fn *ssa.Function, name string) {
 			shift, okShift = lin.K(0), true
 		}
 		if !okShift {
-			r.Undecided(rule, construct, c.ipos(stI), "the octet stored is not byte(length >> 8·k)")
+			c.notDecided(rule, construct, c.ipos(stI), "the octet stored is not byte(length >> 8·k)")
 			return
 		}
 		var body *ssa.BasicBlock
@@ -557,7 +613,7 @@ func (c *c08) octetsClosedForm(n ssa.Value, param *ssa.Parameter) (how, bad stri
 	cv, isC := arg.(*ssa.Convert)
 	at, _ := arg.Type().Underlying().(*types.Basic)
 	if !isC || c08Strip(arg) != ssa.Value(param) || at == nil {
-		return "", "the bit length is not taken of the length parameter"
+		return "", c08NotFollowed + "the bit length is taken of " + arg.Name() + ", which is not directly a conversion of the length parameter"
 	}
 	_ = cv
 	switch {
@@ -568,11 +624,11 @@ func (c *c08) octetsClosedForm(n ssa.Value, param *ssa.Parameter) (how, bad stri
 	// (call + 7) / 8  or  (call + 7) >> 3
 	top, ok := c08Strip(n).(*ssa.BinOp)
 	if !ok {
-		return "", "the octet count is not (bitlen + 7) / 8"
+		return "", c08NotFollowed + "the octet count is derived from a bit length in a form other than (bitlen + 7) / 8 that is not followed"
 	}
 	kv, isK := c08ConstInt(top.Y)
 	if !isK || !((top.Op == token.QUO && kv.Int64() == 8) || (top.Op == token.SHR && kv.Int64() == 3)) {
-		return "", "the octet count is not (bitlen + 7) / 8"
+		return "", c08NotFollowed + "the octet count is derived from a bit length in a form other than (bitlen + 7) / 8 that is not followed"
 	}
 	sum, ok := c08Strip(top.X).(*ssa.BinOp)
 	if !ok || sum.Op != token.ADD {
@@ -584,7 +640,7 @@ func (c *c08) octetsClosedForm(n ssa.Value, param *ssa.Parameter) (how, bad stri
 	}
 	kk, isK := c08ConstInt(k)
 	if !isK || c08Strip(x) != ssa.Value(call) {
-		return "", "the octet count is not (bitlen + 7) / 8"
+		return "", c08NotFollowed + "the octet count is derived from a bit length in a form other than (bitlen + 7) / 8 that is not followed"
 	}
 	if kk.Int64() != 7 {
 		return "", fmt.Sprintf("the octet count is (bitlen + %s) / 8, not (bitlen + 7) / 8", kk)
@@ -599,7 +655,7 @@ func (c *c08) octetsLadder(fi *prove.FuncInfo, np *ssa.Phi, param *ssa.Parameter
 	var walk func(p *ssa.Phi) string
 	walk = func(p *ssa.Phi) string {
 		if seen[p] || c08IsLoopHeader(p.Block()) {
-			return "the octet count is computed in a loop of an unrecognised form"
+			return c08NotFollowed + "the octet count is computed in a loop of a form that is not read"
 		}
 		seen[p] = true
 		for i, e := range p.Edges {
@@ -611,7 +667,7 @@ func (c *c08) octetsLadder(fi *prove.FuncInfo, np *ssa.Phi, param *ssa.Parameter
 			}
 			k, isK := c08ConstInt(e)
 			if !isK || !k.IsInt64() || k.Int64() < 1 || k.Int64() > 8 {
-				return "the octet count is neither a counting loop, a bit-length formula nor a choice of constants 1..8"
+				return c08NotFollowed + "the octet count is neither a counting loop, a bit-length formula nor a choice of constants 1..8; its form is not read"
 			}
 			ctx := fi.CtxEdge(p.Block().Preds[i], p.Block())
 			pf := ctx.Lin(param)
@@ -643,14 +699,14 @@ func (c *c08) gssHeader(fname string) {
 		st := codec.NewStreamer(fn, c.P.InModule)
 		rets := st.Returns()
 		if len(rets) != 1 {
-			r.Undecided(rule, name, c.pos(fn.Pos()), fmt.Sprintf("%d success returns", len(rets)))
+			c.notDecided(rule, name, c.pos(fn.Pos()), fmt.Sprintf("%d success returns; the token is read off exactly one", len(rets)))
 			return
 		}
 		ps := st.Stream(rets[0])
 		r.Extra["layout "+fname] = codec.RenderPieces(ps)
 		for _, p := range ps {
 			if p.Kind == "unknown" {
-				r.Undecided(rule, name, c.ipos(p.At), "the token cannot be read off: "+p.Why)
+				c.notDecided(rule, name, c.ipos(p.At), "the token cannot be read off: "+p.Why)
 				return
 			}
 		}
@@ -660,8 +716,15 @@ func (c *c08) gssHeader(fname string) {
 			return
 		}
 		n := len(ps)
+		if n >= 1 && (ps[0].Kind == "const" || ps[0].Kind == "zero" || ps[0].Kind == "byte" || ps[0].Kind == "int") && !(ps[0].Kind == "const" && len(ps[0].Const) >= 1 && ps[0].Const[0] == 0x60) {
+			// observed: the first octet is a constant other than 0x60
+			if ps[0].Kind != "byte" {
+				r.Fail(rule, name, c.pos(fn.Pos()), "the token does not start with the 0x60 application tag: "+codec.RenderPieces(ps))
+				return
+			}
+		}
 		if n < 4 || ps[0].Kind != "const" || len(ps[0].Const) != 1 || ps[0].Const[0] != 0x60 || ps[n-2].Kind != "bytes" || ps[n-1].Kind != "bytes" {
-			r.Fail(rule, name, c.pos(fn.Pos()), "the token is not 0x60, length octets (short | long), SPNEGO OID, inner token: "+codec.RenderPieces(ps))
+			c.notDecided(rule, name, c.pos(fn.Pos()), "the token is not read off as 0x60, length octets (short | long), SPNEGO OID, inner token: "+codec.RenderPieces(ps))
 			return
 		}
 		z := codec.NewSym()
@@ -724,13 +787,13 @@ func (c *c08) gssHeader(fname string) {
 			}
 		}
 		if len(cases) != 2 {
-			r.Fail(rule, name, c.pos(fn.Pos()), "the token is not 0x60, length octets (short | long), SPNEGO OID, inner token: "+codec.RenderPieces(ps))
+			c.notDecided(rule, name, c.pos(fn.Pos()), "the length octets between the tag and the OID are not read off as a short and a long alternative: "+codec.RenderPieces(ps))
 			return
 		}
 		for _, lc := range cases {
 			for _, p := range lc.pieces {
 				if p.Kind == "unknown" {
-					r.Undecided(rule, name, c.ipos(p.At), "the length octets cannot be read off: "+p.Why)
+					c.notDecided(rule, name, c.ipos(p.At), "the length octets cannot be read off: "+p.Why)
 					return
 				}
 			}
@@ -763,7 +826,7 @@ func (c *c08) gssHeader(fname string) {
 			}
 		}
 		if short == nil || long == nil {
-			r.Fail(rule, name, c.ipos(cases[0].at), "the length octets are not a one-octet form and a marker+octets form: "+codec.RenderPieces(mid))
+			c.notDecided(rule, name, c.ipos(cases[0].at), "the length octets are not read off as a one-octet form and a marker+octets form: "+codec.RenderPieces(mid))
 			return
 		}
 		// short form: the single octet byte(T), written directly or by encodeLength
@@ -774,6 +837,16 @@ func (c *c08) gssHeader(fname string) {
 		} else if sv.Kind == "byte" {
 			sval = c08Strip(sv.Val)
 		}
+		if sval == nil && sv.Kind != "const" && sv.Kind != "zero" {
+			c.notDecided(rule, name, c.ipos(sv.At), "the short-form octet is "+sv.String()+", whose value is not read off")
+			return
+		}
+		if sval != nil {
+			if op := c08OpaqueTerm(z, z.OfIn(sval, sv.Frame)); op != "" && !z.OfIn(sval, sv.Frame).Equal(T) {
+				c.notDecided(rule, name, c.ipos(sv.At), "the short-form octet is "+z.String(z.OfIn(sval, sv.Frame))+": "+op+" is not resolved to lengths of what follows")
+				return
+			}
+		}
 		if sval == nil || !z.OfIn(sval, sv.Frame).Equal(T) {
 			got := sv.String()
 			if sval != nil {
@@ -783,6 +856,10 @@ func (c *c08) gssHeader(fname string) {
 			return
 		}
 		if !proveIn(*short, sval, func(f lin.Form) lin.Con { return lin.LE(f, lin.K(127)) }) {
+			if esc := c.flowsOut(c08Strip(sval), c08FlowOpts{validators: true, lengths: true}); esc != "" {
+				c.notDecided(rule, name, c.ipos(sv.At), "the short form is used for lengths not proved < 128 from the tests read, but "+esc+", which may establish the bound")
+				return
+			}
 			r.Fail(rule, name, c.ipos(sv.At), "the short form is used for lengths not proved < 128")
 			return
 		}
@@ -790,7 +867,15 @@ func (c *c08) gssHeader(fname string) {
 		mv, lb := long.pieces[0], long.pieces[1]
 		larg, call := encArg(lb)
 		if larg == nil {
-			r.Fail(rule, name, c.ipos(lb.At), "the long-form octets are not produced by encodeLength")
+			if lb.Kind == "bytes" || lb.Kind == "nested" || lb.Kind == "alt" {
+				c.notDecided(rule, name, c.ipos(lb.At), "the long-form octets are "+lb.String()+", not directly the result of encodeLength; their producer is not followed")
+			} else {
+				r.Fail(rule, name, c.ipos(lb.At), "the long-form octets are not produced by encodeLength")
+			}
+			return
+		}
+		if op := c08OpaqueTerm(z, z.OfIn(larg, lb.Frame)); op != "" && !z.OfIn(larg, lb.Frame).Equal(T) {
+			c.notDecided(rule, name, c.ipos(call), "encodeLength is applied to "+z.String(z.OfIn(larg, lb.Frame))+": "+op+" is not resolved to lengths of what follows")
 			return
 		}
 		if !z.OfIn(larg, lb.Frame).Equal(T) {
@@ -809,11 +894,19 @@ func (c *c08) gssHeader(fname string) {
 				}
 			}
 		}
+		if !okMarker && mv.Kind != "byte" && mv.Kind != "const" && mv.Kind != "zero" {
+			c.notDecided(rule, name, c.ipos(mv.At), "the long-form marker is "+mv.String()+", whose value is not read off")
+			return
+		}
 		if !okMarker {
 			r.Fail(rule, name, c.ipos(mv.At), "the long-form marker is not 0x80 | len(length octets)")
 			return
 		}
 		if !proveIn(*long, larg, func(f lin.Form) lin.Con { return lin.GE(f, lin.K(128)) }) {
+			if esc := c.flowsOut(c08Strip(larg), c08FlowOpts{validators: true, lengths: true, ignore: func(f *ssa.Function) bool { return f == encLen }}); esc != "" {
+				c.notDecided(rule, name, c.ipos(mv.At), "the long form is used for lengths not proved >= 128 from the tests read, but "+esc+", which may establish the bound")
+				return
+			}
 			r.Fail(rule, name, c.ipos(mv.At), "the long form is used for lengths not proved >= 128")
 			return
 		}
@@ -902,7 +995,7 @@ func (c *c08) argIndex(call *ssa.Call, v ssa.Value) (*ssa.Function, *ssa.Paramet
 		return nil, nil
 	}
 	for i, a := range call.Common().Args {
-		if a == v && i < len(f.Params) {
+		if (a == v || c08Is(a, v)) && i < len(f.Params) {
 			return f, f.Params[i]
 		}
 	}
@@ -932,7 +1025,7 @@ func (c *c08) locateContents(fn *ssa.Function, data *ssa.Parameter, depth int) (
 	if ucall != nil {
 		arg := ucall.Common().Args[0]
 		// (1) asn1.Unmarshal(data[off:], …)
-		if sl, ok := arg.(*ssa.Slice); ok && sl.X == ssa.Value(data) && sl.Low != nil && sl.High == nil && sl.Max == nil {
+		if sl, ok := arg.(*ssa.Slice); ok && c08Is(sl.X, data) && sl.Low != nil && sl.High == nil && sl.Max == nil {
 			// (1a) off computed by a helper: off, err := headerLen(data)
 			low := c08Strip(sl.Low)
 			if ex, isEx := low.(*ssa.Extract); isEx && ex.Index == 0 {
@@ -966,7 +1059,7 @@ func (c *c08) locateContents(fn *ssa.Function, data *ssa.Parameter, depth int) (
 					ct := &c08Contents{g: h, gdata: hp, at: ucall, via: " (contents cut by helper " + h.Name() + ")"}
 					for _, ret := range c08SuccessReturns(h) {
 						sl, ok := ret.Results[0].(*ssa.Slice)
-						if !ok || sl.X != ssa.Value(hp) || sl.Low == nil || sl.High != nil || sl.Max != nil {
+						if !ok || !c08Is(sl.X, hp) || sl.Low == nil || sl.High != nil || sl.Max != nil {
 							return nil, "helper " + h.Name() + " does not return data[offset:]"
 						}
 						ct.offs = append(ct.offs, sl.Low)
@@ -1010,7 +1103,8 @@ func (c *c08) gssSkip(fname string) {
 		}
 		ct, why := c.locateContents(fn, entry, 0)
 		if ct == nil {
-			r.Undecided("R5.gss-skip", name, c.pos(fn.Pos()), why)
+			c.notDecided("R5.gss-skip", name, c.pos(fn.Pos()), why)
+			c.notDecided("R5.gss-tag", name, c.pos(fn.Pos()), "the place where the contents are handed to the DER parser was not located (see R5.gss-skip)")
 			return
 		}
 		g, data := ct.g, ct.gdata
@@ -1020,7 +1114,7 @@ func (c *c08) gssSkip(fname string) {
 				return false
 			}
 			ia, ok := u.X.(*ssa.IndexAddr)
-			if !ok || ia.X != ssa.Value(data) {
+			if !ok || !c08Is(ia.X, data) {
 				return false
 			}
 			k, isK := c08ConstInt(ia.Index)
@@ -1065,6 +1159,8 @@ func (c *c08) gssSkip(fname string) {
 			}
 			if ok {
 				r.OK("R5.gss-tag", name, c.ipos(ct.at), "data[0] == GSS_API_SPNEGO (0x60) on every path to the DER parser"+ct.via)
+			} else if esc := c.skipEscapes(fn, entry, ct); esc != "" {
+				c.notDecided("R5.gss-tag", name, c.ipos(ct.at), "no comparison of data[0] with 0x60 guards the DER parser in the code read, but "+esc+", which may perform it")
 			} else {
 				r.Fail("R5.gss-tag", name, c.ipos(ct.at), "the 0x60 application tag at data[0] is not checked before the contents are parsed")
 			}
@@ -1074,15 +1170,58 @@ func (c *c08) gssSkip(fname string) {
 		test := func(truth bool) func(ssa.Value) (bool, bool) {
 			return func(cond ssa.Value) (bool, bool) {
 				x, set, ok := c08MaskTest(cond, mask80)
-				if !ok || !byteAt(x, 1) {
+				if ok && byteAt(x, 1) {
+					return true, set == truth
+				}
+				// the same test as an order comparison of the octet: b >= 0x80, b > 0x7F
+				// (long form), b < 0x80, b <= 0x7F (short form), also commuted
+				cmp, isB := cond.(*ssa.BinOp)
+				if !isB {
 					return false, false
 				}
-				return true, set == truth
+				op, bx, k := cmp.Op, cmp.X, cmp.Y
+				if _, isK := c08ConstInt(bx); isK {
+					bx, k = k, bx
+					switch op {
+					case token.LSS:
+						op = token.GTR
+					case token.LEQ:
+						op = token.GEQ
+					case token.GTR:
+						op = token.LSS
+					case token.GEQ:
+						op = token.LEQ
+					}
+				}
+				kv, isK := c08ConstInt(k)
+				if !isK || !kv.IsInt64() || !byteAt(bx, 1) {
+					return false, false
+				}
+				switch {
+				case op == token.GEQ && kv.Int64() == 0x80, op == token.GTR && kv.Int64() == 0x7F:
+					return true, truth
+				case op == token.LSS && kv.Int64() == 0x80, op == token.LEQ && kv.Int64() == 0x7F:
+					return true, !truth
+				}
+				return false, false
 			}
 		}
 		vLong := c08NewBranchView(g, test(true))
 		vShort := c08NewBranchView(g, test(false))
 		if vLong.tests == 0 {
+			if esc := c.skipEscapes(fn, entry, ct); esc != "" {
+				c.notDecided("R5.gss-skip", name, c.ipos(ct.at), "no branch of the code read tests data[1] & 0x80, but "+esc+", which may decide the length form")
+				return
+			}
+			// the offset may be computed from data[1] in a form that is not a branch on the marker bit
+			for _, off := range ct.offs {
+				if _, isK := c08ConstInt(off); !isK {
+					if _, isPhi := off.(*ssa.Phi); !isPhi {
+						c.notDecided("R5.gss-skip", name, c.ipos(ct.at), "no branch tests data[1] & 0x80 and the contents offset "+off.Name()+" is computed in a form that is not followed")
+						return
+					}
+				}
+			}
 			r.Fail("R5.gss-skip", name, c.ipos(ct.at), "no branch tests data[1] & 0x80 (long-form marker)")
 			return
 		}
@@ -1094,6 +1233,12 @@ func (c *c08) gssSkip(fname string) {
 			}
 			for _, l := range vShort.leaves(off) {
 				nShort++
+				if _, isK := c08ConstInt(l); !isK {
+					if op := c08OpaqueTerm(z, z.Of(l)); op != "" {
+						c.notDecided("R5.gss-skip", name, c.ipos(ct.at), "with the short form the contents are taken from offset "+z.String(z.Of(l))+", which is not resolved to a constant")
+						return
+					}
+				}
 				if k, isK := c08ConstInt(l); !isK || k.Int64() != 2 {
 					r.Fail("R5.gss-skip", name, c.ipos(ct.at), "with the short form (data[1] < 0x80) the contents are taken from offset "+z.String(z.Of(l))+", not 2")
 					return
@@ -1121,6 +1266,10 @@ func (c *c08) gssSkip(fname string) {
 						}
 					}
 				}
+				if !ok && !c.skipFormObserved(z, f, byteAt) {
+					c.notDecided("R5.gss-skip", name, c.ipos(ct.at), "with the long form the contents are taken from offset "+z.String(f)+", which is not resolved to a constant plus bits of data[1]")
+					return
+				}
 				if !ok {
 					r.Fail("R5.gss-skip", name, c.ipos(ct.at), "with the long form the contents are taken from offset "+z.String(f)+", not 2 + (data[1] & 0x7F) — the structural mirror of 0x80|n followed by n length octets")
 					return
@@ -1128,7 +1277,7 @@ func (c *c08) gssSkip(fname string) {
 			}
 		}
 		if nShort == 0 || nLong == 0 {
-			r.Fail("R5.gss-skip", name, c.ipos(ct.at), "the contents offset is not defined for both the short and the long length form")
+			c.notDecided("R5.gss-skip", name, c.ipos(ct.at), "the contents offset is not read off for both the short and the long length form")
 			return
 		}
 		r.OK("R5.gss-skip", name, c.ipos(ct.at), "contents start at 2 (short form) or 2 + (data[1] & 0x7F) (long form)"+ct.via)
@@ -1138,4 +1287,55 @@ func (c *c08) gssSkip(fname string) {
 func c08ValueOf(in ssa.Instruction) ssa.Value {
 	v, _ := in.(ssa.Value)
 	return v
+}
+
+// skipEscapes: the token (in the entry parser or in the helper the header
+// handling was located in) is handed to code that can reject it and that was
+// not read.
+func (c *c08) skipEscapes(fn *ssa.Function, entry *ssa.Parameter, ct *c08Contents) string {
+	ign := func(f *ssa.Function) bool { return f == ct.g }
+	if why := c.flowsOut(entry, c08FlowOpts{validators: true, ignore: ign}); why != "" {
+		return why
+	}
+	if ct.g != fn {
+		return c.flowsOut(ct.gdata, c08FlowOpts{validators: true, ignore: ign})
+	}
+	return ""
+}
+
+// skipFormObserved: every term of the offset form is data[1] or data[1] & mask
+// (so a mismatch with 2 + (data[1] & 0x7F) is something seen, not something
+// unresolved).
+func (c *c08) skipFormObserved(z *codec.Sym, f lin.Form, byteAt func(ssa.Value, int64) bool) bool {
+	for _, t := range f.Terms() {
+		v, isLen := z.TermValue(t)
+		if isLen {
+			return false
+		}
+		if byteAt(v, 1) {
+			continue
+		}
+		b, isB := v.(*ssa.BinOp)
+		if !isB || b.Op != token.AND {
+			return false
+		}
+		x, k := b.X, b.Y
+		if _, isK := c08ConstInt(x); isK {
+			x, k = k, x
+		}
+		if _, isK := c08ConstInt(k); !isK || !byteAt(x, 1) {
+			return false
+		}
+	}
+	return true
+}
+
+// c08Is: v is value `want` of the analysed function — directly, or as a load of
+// the single-assignment cell a captured parameter is spilled to.
+func c08Is(v, want ssa.Value) bool {
+	if v == want {
+		return true
+	}
+	r, fr := codec.Resolve(v, nil)
+	return fr == nil && r == want
 }
